@@ -68,7 +68,32 @@ func (s mbSpec) sender(v int) int {
 }
 
 // model state: values in arrival order, encoded as a string of runes.
-func (s mbSpec) model(relaxEmpty, relaxFull bool) porcupine.Model {
+//
+// rank (optional) maps each value to the position at which the consumer took
+// it out (absent = never dequeued). It only prunes the search: the dequeues of
+// one mailbox are issued by a single thread, hence totally ordered in real
+// time, so a linearization that queues b behind a in the same FIFO lane (whole
+// queue, sender sub-queue, or priority class of a stable priority mailbox)
+// although b was dequeued first cannot be completed. Rejecting it at the
+// enqueue instead of at the dequeue changes no verdict; it keeps porcupine from
+// enumerating the orders of many overlapping enqueues (measured: a 36-operation
+// history went from a 5 s timeout to milliseconds).
+func (s mbSpec) model(relaxEmpty, relaxFull bool, rank map[int]int) porcupine.Model {
+	rk := func(v int) int {
+		if r, ok := rank[v]; ok {
+			return r
+		}
+		return int(^uint(0) >> 1)
+	}
+	sameLane := func(a, b int) bool {
+		switch {
+		case s.kind.prio:
+			return s.prio(a) == s.prio(b)
+		case s.kind.fair:
+			return s.sender(a) == s.sender(b)
+		}
+		return true
+	}
 	return porcupine.Model{
 		Init: func() any { return "" },
 		Step: func(st, in, out any) (bool, any) {
@@ -87,6 +112,16 @@ func (s mbSpec) model(relaxEmpty, relaxFull bool) porcupine.Model {
 				}
 				if o.Full {
 					return false, st
+				}
+				if rank != nil && (!s.kind.prio || s.kind.stable) {
+					for k := len(q) - 1; k >= 0; k-- {
+						if w := int(q[k]); sameLane(w, i.V) {
+							if rk(w) > rk(i.V) {
+								return false, st // doomed: i.V left the mailbox before w
+							}
+							break
+						}
+					}
 				}
 				return true, string(append(q, rune(i.V)))
 			case opDeq:
@@ -265,6 +300,7 @@ func c04Run(c *Ctx) {
 						return
 					}
 					out.V = v
+					nils = 0
 					dequeued[m]++
 					seen[v]++
 					if seen[v] > 1 {
@@ -274,8 +310,15 @@ func c04Run(c *Ctx) {
 						c.Fail("wrong-mailbox", kind.name, "value %d enqueued into mailbox %d came out of mailbox %d", v, v/1000, m)
 					}
 				} else {
-					nils++
-					if allIn && nils > 3 && dequeued[m] < accepted[m] {
+					// consecutive nils seen with every producer finished: one of
+					// them is a false empty report (classified from the history
+					// afterwards), a row of them is a message that never comes out
+					if allIn && dequeued[m] < accepted[m] {
+						nils++
+					} else {
+						nils = 0
+					}
+					if nils > 3 {
 						c.Fail("message-lost", kind.name, "mailbox %d: %d accepted, %d dequeued, Dequeue keeps returning nil after all producers finished; history: %s", m, accepted[m], dequeued[m], c04Describe(hist[m]))
 						return
 					}
@@ -363,8 +406,18 @@ func c04Finish(c *Ctx) {
 // that fails, names the narrowest relaxation under which it still has a
 // linearization, so that distinct defects get distinct classes.
 func c04Classify(spec mbSpec, h []porcupine.Operation) (class, why string) {
+	// where does each value leave the mailbox?
+	deqCall, deqRet, rank := map[int]int64{}, map[int]int64{}, map[int]int{}
+	for _, op := range h {
+		if i, o := op.Input.(mbIn), op.Output.(mbOut); i.Op == opDeq && o.V != 0 {
+			deqCall[o.V], deqRet[o.V] = op.Call, op.Return
+			if _, dup := rank[o.V]; !dup {
+				rank[o.V] = len(rank)
+			}
+		}
+	}
 	chk := func(re, rf bool) (res porcupine.CheckResult) {
-		OffBubble(func() { res = porcupine.CheckOperationsTimeout(spec.model(re, rf), h, 5*time.Second) })
+		OffBubble(func() { res = porcupine.CheckOperationsTimeout(spec.model(re, rf, rank), h, 5*time.Second) })
 		return res
 	}
 	switch chk(false, false) {
@@ -372,13 +425,6 @@ func c04Classify(spec mbSpec, h []porcupine.Operation) (class, why string) {
 		return "", ""
 	case porcupine.Unknown:
 		return "unknown", ""
-	}
-	// where does each value leave the mailbox?
-	deqCall, deqRet := map[int]int64{}, map[int]int64{}
-	for _, op := range h {
-		if i, o := op.Input.(mbIn), op.Output.(mbOut); i.Op == opDeq && o.V != 0 {
-			deqCall[o.V], deqRet[o.V] = op.Call, op.Return
-		}
 	}
 	fullClass := func() (string, string) {
 		for _, f := range h {
@@ -413,38 +459,45 @@ func c04Classify(spec mbSpec, h []porcupine.Operation) (class, why string) {
 			hasFull = true
 		}
 	}
-	if chk(true, false) == porcupine.Ok {
-		behind := ""
-		for _, r := range h {
-			ri, ro := r.Input.(mbIn), r.Output.(mbOut)
-			if !((ri.Op == opDeq && ro.V == 0) || (ri.Op == opEmpty && ro.Empty)) {
+	// empty reports read directly off the history (no search involved): was a
+	// completed, not yet dequeued enqueue pending, and was any enqueue in flight?
+	alone, behind := "", ""
+	for _, r := range h {
+		ri, ro := r.Input.(mbIn), r.Output.(mbOut)
+		if !((ri.Op == opDeq && ro.V == 0) || (ri.Op == opEmpty && ro.Empty)) {
+			continue
+		}
+		pending, inflight := 0, false
+		for _, e := range h {
+			ei, eo := e.Input.(mbIn), e.Output.(mbOut)
+			if ei.Op != opEnq {
 				continue
 			}
-			pending, inflight := 0, false
-			for _, e := range h {
-				ei, eo := e.Input.(mbIn), e.Output.(mbOut)
-				if ei.Op != opEnq {
-					continue
-				}
-				if e.Call < r.Return && e.Return > r.Call {
-					inflight = true
-				}
-				if eo.Full || e.Return >= r.Call {
-					continue
-				}
-				if dc, ok := deqCall[ei.V]; ok && dc < r.Return {
-					continue
-				}
-				pending = ei.V
+			if e.Call < r.Return && e.Return > r.Call {
+				inflight = true
 			}
-			if pending != 0 {
-				if !inflight {
-					return "empty-with-completed-enqueue", fmt.Sprintf("reported empty at [%d-%d] although Enqueue(%d) had completed, was not dequeued, and no enqueue was in flight", r.Call, r.Return, pending)
-				}
-				if behind == "" {
-					behind = fmt.Sprintf("reported empty at [%d-%d] while the completed Enqueue(%d) had not been dequeued (another enqueue was in flight)", r.Call, r.Return, pending)
-				}
+			if eo.Full || e.Return >= r.Call {
+				continue
 			}
+			if dc, ok := deqCall[ei.V]; ok && dc < r.Return {
+				continue
+			}
+			pending = ei.V
+		}
+		if pending == 0 {
+			continue
+		}
+		if !inflight && alone == "" {
+			alone = fmt.Sprintf("reported empty at [%d-%d] although Enqueue(%d) had completed, was not dequeued, and no enqueue was in flight", r.Call, r.Return, pending)
+		}
+		if inflight && behind == "" {
+			behind = fmt.Sprintf("reported empty at [%d-%d] while the completed Enqueue(%d) had not been dequeued (another enqueue was in flight)", r.Call, r.Return, pending)
+		}
+	}
+	switch chk(true, false) {
+	case porcupine.Ok:
+		if alone != "" {
+			return "empty-with-completed-enqueue", alone
 		}
 		if behind != "" {
 			return "empty-behind-inflight", behind
@@ -453,9 +506,21 @@ func c04Classify(spec mbSpec, h []porcupine.Operation) (class, why string) {
 			return fullClass()
 		}
 		return "empty-nonlinearizable", "an empty report contradicts every linearization although no completed enqueue was pending"
+	case porcupine.Unknown:
+		// the classifying search timed out; what can be read off the history
+		// without a search is still reported, the rest is inconclusive
+		if alone != "" {
+			return "empty-with-completed-enqueue", alone
+		}
+		return "unknown", ""
 	}
-	if hasFull && chk(true, true) == porcupine.Ok {
-		return fullClass()
+	if hasFull {
+		switch chk(true, true) {
+		case porcupine.Ok:
+			return fullClass()
+		case porcupine.Unknown:
+			return "unknown", ""
+		}
 	}
 	return "not-linearizable", "no linearization exists even with empty reports and rejections unconstrained (order, duplication or loss)"
 }
